@@ -1016,7 +1016,13 @@ class ManyToMany:
         """
         if key not in self.data:
             return
-        self.data[newkey] = fwdset = self.data.pop(key)
+        fwdset = self.data.pop(key)
+        if newkey in self.data:
+            # merge, rather than dropping newkey's own values (and leaving
+            # their reverse entries pointing at a pair that is gone)
+            self.data[newkey].update(fwdset)
+        else:
+            self.data[newkey] = fwdset
         for val in fwdset:
             revset = self.inv.data[val]
             revset.remove(key)
